@@ -1364,6 +1364,51 @@ def discr_switch_after_call(body, call_block):
     return None
 
 
+def nonempty_edges(body, is_buf):
+    """CFG edges on which a buffer is known to hold at least one more byte: `has_remaining()` true, `is_empty()` false,
+    `remaining()` / `len()` compared with a constant (`> 0`, `>= 1`, `!= 0` true; `== 0`, `< 1` false; either operand
+    order). `is_buf(call terminator)` says whether the call's receiver is the buffer of interest. -> [(switch block, target)]"""
+    out = []
+    lens = {}
+    for bi, t in body.calls():
+        nm = callee_name(t) or ''
+        if not t.get('args') or not is_buf(t):
+            continue
+        if nm.endswith('::has_remaining') or nm.endswith('::is_empty'):
+            r = call_bool_branch(body, bi)
+            if r and r[0] != 'discr':
+                out.append((r[0], r[1] if nm.endswith('::has_remaining') else r[2]))
+        elif re.search(r'::(remaining|len)$', nm):
+            lens[t['dest']['l']] = bi
+    for bi, j, s in body.assigns():
+        rv = s['rv']
+        if rv['k'] != 'bin' or rv['op'] not in ('Gt', 'Ge', 'Ne', 'Eq', 'Lt', 'Le'):
+            continue
+        for x, y, flip in ((rv['a'], rv['b'], False), (rv['b'], rv['a'], True)):
+            px, c = op_place(x), const_val(y)
+            if px is None or c is None or place_proj(px):
+                continue
+            l = px['l']
+            for _ in range(4):
+                if l in lens:
+                    break
+                ds = [d for d in body.whole_defs(l) if d[0] in body.live]
+                if len(ds) == 1 and ds[0][2] == 'assign' and ds[0][3]['rv']['k'] in ('use', 'cast') and op_place(ds[0][3]['rv'].get('op')) is not None:
+                    l = op_place(ds[0][3]['rv']['op'])['l']
+                else:
+                    break
+            if l not in lens:
+                continue
+            op = rv['op'] if not flip else {'Gt': 'Lt', 'Lt': 'Gt', 'Ge': 'Le', 'Le': 'Ge'}.get(rv['op'], rv['op'])
+            when_true = {('Gt', 0): True, ('Ge', 1): True, ('Ne', 0): True, ('Eq', 0): False, ('Lt', 1): False, ('Le', 0): False}.get((op, c))
+            if when_true is None:
+                continue
+            r = bool_branch(body, bi, s['lhs']['l'])
+            if r:
+                out.append((r[0], r[1] if when_true else r[2]))
+    return out
+
+
 # ----------------------------------------------------------------------------- access paths
 APATH_TRANSPARENT = re.compile(r'(::|^)(deref|deref_mut|borrow|borrow_mut|as_ref|as_mut|get_mut|clone|as_deref|as_deref_mut|as_pin_mut|get_ref|into_inner|project|project_ref|as_pin_ref|new_unchecked|new|get_unchecked_mut|map_unchecked_mut|into_future|get)$')
 
